@@ -23,3 +23,26 @@ func (c *UDPVirtualConn) VerifClosed() bool {
 		return false
 	}
 }
+
+// VerifSession: an adapter plus the session of one source address, for driving the adapter's receive path.
+type VerifSession struct {
+	A    *UDPMappingAdapter
+	Conn *UDPVirtualConn
+	l    net.PacketConn
+	addr net.Addr
+}
+
+func VerifNewSession(listener net.PacketConn, remote net.Addr) *VerifSession {
+	a := NewUDPMappingAdapter()
+	return &VerifSession{A: a, Conn: a.getOrCreateSession(remote.String(), remote, listener), l: listener, addr: remote}
+}
+
+// Deliver hands one received datagram to the adapter the way its read loop does (pooled buffer, processPacket).
+func (s *VerifSession) Deliver(d []byte) {
+	buf := getBuffer()
+	n := copy(buf, d)
+	s.A.processPacket(buf, n, s.addr, s.l)
+}
+
+// ReadQueued: datagrams delivered and not yet taken by Read.
+func (s *VerifSession) ReadQueued() int { return len(s.Conn.readChan) }
